@@ -10,7 +10,9 @@
    about a uniform variate and is only TESTED (harness, 6-sigma band). *)
 From Coq Require Import QArith ZArith List Permutation.
 From FL Require Import Num ListX Thresholder Thresholder_proofs.
-From FLGen Require Gen_thresholder.
+From FL Require Tradeoff Hull Interp ThreshOpt ThreshOpt_proofs ThreshOptSrc Saddle SaddleFit.
+From FL Require ThresholderBridge ThresholderBridge_proofs.
+From FLGen Require Gen_thresholder Gen_threshopt Gen_egconst.
 Import ListNotations.
 Open Scope Q_scope.
 
@@ -158,3 +160,187 @@ Example C10_example_rule :
   let r := mk_rule (1#3) (mk_throp OpGt (Fin (1#2))) (2#3) (mk_throp OpGt PInf) (1#4) (1#2) in
   rule_valid r /\ pmf_thr_src r (1#2) == 1#8 /\ pmf_thr_src r 1 == 3#8 /\ pmf_thr_src r (1#2) <= pmf_thr_src r 1.
 Proof. exact example_rule. Qed.
+
+
+(* ====================================================================================================
+   Extension: no hypothesis left on the fitted rule / weights.
+   The rule is what the C04/C05 model of ThresholdOptimizer.fit produces (re-assembled from the tags and
+   expressions REGENERATED from _threshold_optimizer.py, FLGen.Gen_threshopt), converted to an entry of
+   interpolation_dict by ThresholderBridge.conv_rule; the weights are what the C08 model of
+   ExponentiatedGradient.fit hands out (Qsum / Qsum.sum() or the LP candidate, the EG/LP choice and
+   best_iter_ REGENERATED from exponentiated_gradient.py, FLGen.Gen_egconst) followed by the zero padding.
+   D is the common denominator of the scores (the C04 model works on the integers score * D; a midpoint
+   threshold stored as the doubled integer w is the float w / (2 D)).
+   ==================================================================================================== *)
+Module B := ThresholderBridge.
+Module BP := ThresholderBridge_proofs.
+Module TO := ThreshOpt.
+Module TOS := ThreshOptSrc.
+Module GT := Gen_threshopt.
+Module GE := Gen_egconst.
+
+Definition both_labels_all (gs : list Tradeoff.group) : Prop :=
+  forall g, In g gs -> Tradeoff.both_labels g = true.
+
+(* interpolation_dict values, per group, of the fit re-assembled from the regenerated source pieces *)
+Definition fit_simple_rules_src (D : positive) (flip : bool) (mx my : Tradeoff.metric) (N : positive)
+                                (gs : list Tradeoff.group) : list rule :=
+  map (B.conv_rule D)
+      (TOS.simple_rules_src GT.simple_bunch (TOS.fit_simple_src GT.simple_select GT.simple_index flip mx my N gs)).
+
+Definition fit_eo_rules_src (D : positive) (flip : bool) (obj : Tradeoff.metric) (N : positive)
+                            (gs : list Tradeoff.group) : list rule :=
+  map (B.conv_rule D)
+      (TO.fe_rules (TOS.fit_eo_src GT.eo_x_metric GT.eo_y_metric GT.eo_reduce GT.eo_select GT.eo_index GT.eo_const
+                                   GT.eo_bunch GT.eo_n_negative GT.eo_counts GT.eo_p_ignore flip obj N gs)).
+
+(* "rules is what ThresholdOptimizer(constraints, objective, flip, grid_size).fit stored for the groups gs" *)
+Definition is_fitted_src (rules : list rule) (flip : bool) (gs : list Tradeoff.group) : Prop :=
+  (exists D mx my N, ThreshOpt_proofs.constraint_metric mx /\ rules = fit_simple_rules_src D flip mx my N gs) \/
+  (exists D obj N, rules = fit_eo_rules_src D flip obj N gs).
+
+(* the source-shaped fits are the definitions the correspondence run evaluates (run_bridge_simple / _eo) *)
+Theorem C10_fit_src_is_model :
+  (forall D flip mx my N gs, fit_simple_rules_src D flip mx my N gs = B.fitted_simple D flip mx my N gs) /\
+  (forall D flip obj N gs, fit_eo_rules_src D flip obj N gs = B.fitted_eo D flip obj N gs) /\
+  (forall mx, In mx GT.simple_constraint_metrics -> ThreshOpt_proofs.constraint_metric mx).
+Proof.
+  split; [intros; reflexivity|]. split; [intros; reflexivity|].
+  intros mx H. unfold GT.simple_constraint_metrics in H.
+  repeat (destruct H as [<-|H]; [exact I|]). destruct H.
+Qed.
+Print Assumptions C10_fit_src_is_model.
+
+(* the converted rule reports, at the real score s / D, the pmf the C04 / C05 theorems are about *)
+Theorem C10_fitted_pmf_is_c04_pmf : forall D (r : TO.rule) (s : Z),
+  pmf_thr_src (B.conv_rule D r) (s # D) == TO.pmf r s.
+Proof. exact BP.conv_pmf. Qed.
+Print Assumptions C10_fitted_pmf_is_c04_pmf.
+
+(* fitted_rules_valid: for every list of groups each containing both labels, every constraint (the five simple
+   constraint metrics; equalized odds), every objective, flip and grid size, EVERY rule the fit produces
+   satisfies the hypotheses of C10_pmf_thr_unit: p0, p1 >= 0, p0 + p1 = 1 (C04 interp_index_valid),
+   0 <= p_ignore <= 1 (y_best lies between the diagonal and the group's ROC hull: C05 hull_is_upper_hull,
+   hull_ge_diagonal, pointwise min), 0 <= prediction_constant <= 1 (a grid value) *)
+Theorem C10_fitted_rules_valid :
+  (forall D flip mx my N gs, ThreshOpt_proofs.constraint_metric mx -> both_labels_all gs ->
+     Forall rule_valid (fit_simple_rules_src D flip mx my N gs)) /\
+  (forall D flip obj N gs, both_labels_all gs ->
+     Forall rule_valid (fit_eo_rules_src D flip obj N gs)).
+Proof. exact BP.fitted_rules_valid. Qed.
+Print Assumptions C10_fitted_rules_valid.
+
+(* ... hence the pmf a fitted ThresholdOptimizer reports is a distribution: for the rule of every group at
+   EVERY score, and for every table of query rows (any codes for the groups, rows of unknown groups get (1, 0)) *)
+Theorem C10_pmf_unit_for_fitted_models : forall rules flip gs, both_labels_all gs -> is_fitted_src rules flip gs ->
+  (forall r s, In r rules ->
+     0 <= pmf_thr_src r s /\ pmf_thr_src r s <= 1 /\
+     fst (G.cols_src (pmf_thr_src r s)) + snd (G.cols_src (pmf_thr_src r s)) == 1 /\
+     0 <= fst (G.cols_src (pmf_thr_src r s)) /\ fst (G.cols_src (pmf_thr_src r s)) <= 1) /\
+  (forall codes rows,
+     Forall (fun c => 0 <= fst c /\ 0 <= snd c /\ fst c + snd c == 1)
+            (pmf_rows_src (B.fitted_dict codes rules) rows)).
+Proof. exact BP.pmf_unit_for_fitted_models. Qed.
+Print Assumptions C10_pmf_unit_for_fitted_models.
+
+(* with flip = False the fit only produces '>' operations, hence for every group the positive probability never
+   decreases as the score increases *)
+Theorem C10_monotone_for_fitted_models_without_flip : forall rules gs, both_labels_all gs ->
+  is_fitted_src rules false gs ->
+  forall r, In r rules ->
+    t_op (op0 r) = OpGt /\ t_op (op1 r) = OpGt /\
+    forall s s', s <= s' -> pmf_thr_src r s <= pmf_thr_src r s'.
+Proof. exact BP.monotone_for_fitted_models_without_flip. Qed.
+Print Assumptions C10_monotone_for_fitted_models_without_flip.
+
+(* ---- ExponentiatedGradient ---- *)
+(* what one iteration appends to Qs (regenerated EG/LP choice), and weights_ after fit: Qs[best_iter_]
+   (regenerated selection, _PRECISION) with a 0.0 entry added for every predictor id not in its index *)
+Definition iter_pair_src (it : B.eg_iter) : weights * Q :=
+  GE.keep_src (B.q_eg (B.it_hs it)) (B.it_gap it)
+              (match B.it_lp it with Some xg => Some (B.q_lp (fst xg), snd xg) | None => None end).
+Definition eg_fit_weights_src (n : nat) (its : list B.eg_iter) : weights :=
+  B.pad_zero n (SaddleFit.ret_weights
+                  (GE.returned_src ([] : weights) (map snd (map iter_pair_src its)) (map fst (map iter_pair_src its)))).
+
+Theorem C10_eg_fit_src_is_model : forall n its,
+  eg_fit_weights_src n its = B.eg_fit_weights GE.precision n its.
+Proof. exact (fun _ _ => eq_refl). Qed.
+Print Assumptions C10_eg_fit_src_is_model.
+
+(* weights_ (either branch: normalised counts Qsum / Qsum.sum() -- C08 weights_probability -- or an answer of
+   linprog meeting the constraints solve_linprog passes -- C08 lp_weights_probability --, whichever iteration
+   is selected -- C08 returned_consistent --, after the zero padding) is a probability vector indexed by
+   predictor ids, each id once.  Guards (BP.iter_ok): at least one iteration ran, iteration t has recorded
+   t + 1 >= 1 best responses, and linprog's answer is feasible (the solver is trusted, as in C08). *)
+Theorem C10_eg_weights_probability_for_fitted_models : forall n its, its <> [] ->
+  (forall it, In it its -> BP.iter_ok it) ->
+  Forall (fun tw => 0 <= snd tw) (eg_fit_weights_src n its) /\
+  qsum (map snd (eg_fit_weights_src n its)) == 1 /\
+  NoDup (map fst (eg_fit_weights_src n its)) /\
+  (forall t, (t < n)%nat -> In t (map fst (eg_fit_weights_src n its))).
+Proof.
+  exact (fun n its Hne Hok =>
+    let P := Qle_bool_imp_le 0 GE.precision eq_refl in
+    conj (proj1 (BP.eg_fit_weights_probability GE.precision n its P Hne Hok))
+   (conj (proj2 (BP.eg_fit_weights_probability GE.precision n its P Hne Hok))
+   (conj (BP.eg_fit_weights_nodup GE.precision n its P Hne)
+         (fun t Ht => BP.pad_zero_cover n _ t Ht)))).
+Qed.
+Print Assumptions C10_eg_weights_probability_for_fitted_models.
+
+(* ... hence for hard (0/1) predictors the reported probability of a fitted ExponentiatedGradient lies in [0,1],
+   the two columns sum to 1, and it is the mixture of the predictors' outputs paired by predictor id *)
+Theorem C10_pmf_eg_unit_for_fitted_models : forall n its outs, its <> [] ->
+  (forall it, In it its -> BP.iter_ok it) ->
+  Forall (fun o => o == 0 \/ o == 1) outs ->
+  let W := eg_fit_weights_src n its in
+  0 <= G.pmf_eg_src W outs /\ G.pmf_eg_src W outs <= 1 /\
+  fst (pmf_cols (G.pmf_eg_src W outs)) + snd (pmf_cols (G.pmf_eg_src W outs)) == 1 /\
+  G.pmf_eg_src W outs == qsum (map (fun tw => snd tw * nth (fst tw) outs 0) W).
+Proof.
+  exact (fun n its outs => BP.pmf_eg_unit_for_fitted_models GE.precision n its outs
+                             (Qle_bool_imp_le 0 GE.precision eq_refl)).
+Qed.
+Print Assumptions C10_pmf_eg_unit_for_fitted_models.
+
+(* non-vacuity of the extension.  ThresholdOptimizer: equalized odds, flip, grid 3, two groups with half-integer
+   scores (D = 2), the first one anti-correlated with its labels: the premises hold, the first group's rule uses a
+   '<' operation, the second has p_ignore = 1/9 > 0, prediction_constant = 1/3; with the '<' operation the first
+   group's reported probability really decreases (1 at the score 1/2, 1/3 at 3/2).  ExponentiatedGradient: three
+   iterations, the second one keeps the LP candidate (gap 1/10 < 3/10) and is selected; weights_ = the LP weights
+   padded with zeros for ids 2, 3; the LP answer is a feasible point of what solve_linprog passes. *)
+Example C10_example_fitted :
+  let gs := [[(0, true); (1, true); (2, false); (3, false); (3, true)];
+             [(0, false); (1, true); (2, false); (3, true)]]%Z in
+  let rules := fit_eo_rules_src 2 true Tradeoff.Acc 3 gs in
+  both_labels_all gs /\ is_fitted_src rules true gs /\
+  map (fun r => Qred (p0 r)) rules = [2 # 3; 1 # 3] /\
+  map (fun r => t_op (op0 r)) rules = [OpLt; OpGt] /\
+  map (fun r => Qred (p_ignore r)) rules = [0; 1 # 9] /\
+  map (fun r => Qred (pmf_thr_src r (1 # 2))) rules = [1; 17 # 27] /\
+  map (fun r => Qred (pmf_thr_src r (3 # 2))) rules = [1 # 3; 25 # 27] /\
+  (let its := [B.mk_iter [0%nat] (3#10) None;
+               B.mk_iter [0%nat; 1%nat] (3#10) (Some ([1#2; 1#2], 1#10));
+               B.mk_iter [0%nat; 1%nat; 1%nat] (2#10) None] in
+   (forall it, In it its -> BP.iter_ok it) /\
+   eg_fit_weights_src 4 its = [(0%nat, 1#2); (1%nat, 1#2); (2%nat, 0); (3%nat, 0)] /\
+   B.q_eg [1%nat; 0%nat; 1%nat] = [(1%nat, 2#3); (0%nat, 1#3)] /\
+   Qred (G.pmf_eg_src (eg_fit_weights_src 4 its) [1; 0; 1; 1]) = 1 # 2).
+Proof.
+  cbv zeta. split; [|split; [|split; [|split; [|split; [|split; [|split; [|split; [|split; [|split]]]]]]]]].
+  - intros g [<-|[<-|[]]]; reflexivity.
+  - right. exists 2%positive, Tradeoff.Acc, 3%positive. reflexivity.
+  - vm_compute. reflexivity.
+  - vm_compute. reflexivity.
+  - vm_compute. reflexivity.
+  - vm_compute. reflexivity.
+  - vm_compute. reflexivity.
+  - intros it [<-|[<-|[<-|[]]]]; (split; [discriminate|]); intros xg E; try discriminate E.
+    inversion E; subst. cbn [fst].
+    exists [Saddle.mkHyp (1#4) [1#2; -(1#2)]; Saddle.mkHyp (1#2) [0; 0]], [1#10; 1#10], (3#20).
+    vm_compute. reflexivity.
+  - vm_compute. reflexivity.
+  - vm_compute. reflexivity.
+  - vm_compute. reflexivity.
+Qed.
